@@ -95,6 +95,9 @@ def main(tier, replay):
                 cases.append(mk(f"{tag}-{i}-{fk}", sh, mode, pess, faults=[{"at": i, "kind": fk}]))
             for hk in HOOKS:
                 cases.append(mk(f"{tag}-{i}-{hk}", sh, mode, pess, extras=[{"at": i, "what": hk, "k": ""}]))
+            # the request is applied, its answer is lost, and only then the region is split: the retry is re-split
+            cases.append(mk(f"{tag}-{i}-dropresp+aftersplit", sh, mode, pess, faults=[{"at": i, "kind": "dropresp"}],
+                            extras=[{"at": i, "what": "after:split", "k": rng.choice(sh["keys"])}]))
             for bk in ("req", "resp"):
                 cases.append(mk(f"{tag}-{i}-black{bk}", sh, mode, pess, black_from=i, black_kind=bk))
             # double faults: a second fault at a later index
